@@ -116,7 +116,7 @@ pub struct ExecOpts {
 
 impl Default for ExecOpts {
     fn default() -> Self {
-        ExecOpts { trace: false, step_budget: 60_000, baseline_step_cap: 30_000 }
+        ExecOpts { trace: false, step_budget: 40_000, baseline_step_cap: 8_000 }
     }
 }
 
